@@ -221,12 +221,15 @@ class Wallet:
         return False
 
     async def unlock(self, password):
+        unlocked = []
         for account in self.accounts:
             if account.encrypted:
                 if not account.decrypt(password):
                     return False
-                await account.deterministic_channel_keys.ensure_cache_primed()
+                unlocked.append(account)
         self.encryption_password = password
+        for account in unlocked:
+            await account.deterministic_channel_keys.ensure_cache_primed()
         return True
 
     def lock(self):
